@@ -339,8 +339,10 @@ func (c *c16Case) knownReasons() []string {
 	if f.embPtr {
 		out = append(out, "C16-embedded-pointer")
 	}
-	if c.nameCollision(false) {
-		out = append(out, "C16-registry-bare-name")
+	collision := c.nameCollision(false)
+	if collision && (f.ifaceStruct || f.ifaceCK) {
+		// create-key NAMES in the data are resolved by bare name (by design unless FullTypePath)
+		out = append(out, "C16-createkey-bare-name")
 	}
 	if f.nilPtrElem {
 		out = append(out, "C16-nil-pointer-element")
@@ -351,6 +353,11 @@ func (c *c16Case) knownReasons() []string {
 	if f.bytes && (c.route == "marshal" || c.spec.BytesAs != ojg.BytesAsArray) {
 		// (the Marshal route writes numbers as long as C15-bytes-as-slice stands, and then round-trips)
 		out = append(out, "C16-bytes-text")
+	}
+	if len(out) == 0 && collision {
+		// the lookup of a struct's own composer by bare name: repaired by /repo 6d5fecb and listed as
+		// fixed — named here only when nothing else explains the failure, and then it is a violation
+		out = append(out, "C16-registry-bare-name")
 	}
 	return out
 }
@@ -477,7 +484,7 @@ func checkC16(d *lib.Driver, c *c16Case) error {
 			rep.Add(f)
 		}
 	}
-	// the model: the code as it is (b) and with the registry repair (-), without and with the history
+	// the model: the code before 6d5fecb (b, lookup by bare name) and as it is now (-, lookup guarded by the type), without and with the history
 	var model [4]string
 	if d != nil {
 		ck := lib.HexF([]byte(c.createKey()))
@@ -499,11 +506,17 @@ func checkC16(d *lib.Driver, c *c16Case) error {
 	facts(c.d, c.v, false, &fc)
 	// resolution of create-key names is data driven: the type guard of the repaired model cannot help there
 	dataDriven := fc.ifaceStruct || fc.ifaceCK
+	// a create-key member with a non-string value names the type "": which struct literal type is filed
+	// under "" at that moment depends on the order in which Go walks the field index MAP (since
+	// 6d5fecb every struct literal met re-registers itself under ""), so the implementation's own
+	// outcome is not determined; the model walks in list order and is not compared on such cases
+	ckMember := fc.ifaceCK
 	for _, h := range c.hist {
 		if h.v.IsValid() {
 			fh := valFacts{ck: c.createKey()}
 			facts(h.d, h.v, false, &fh)
 			dataDriven = dataDriven || fh.ifaceStruct || fh.ifaceCK
+			ckMember = ckMember || fh.ifaceCK
 		}
 	}
 	if c.route == "marshal" && fc.ifaceStruct {
@@ -528,8 +541,12 @@ func checkC16(d *lib.Driver, c *c16Case) error {
 			if fc.ifaceCK {
 				reasons = append(reasons, "C16-createkey-member")
 			}
-			if c.nameCollision(true) && (d == nil || len(reasons) > 0 || dataDriven || model[2] == "outside" || model[3] == "outside" || model[2] == model[3]) {
-				reasons = append(reasons, "C16-registry-bare-name")
+			if c.nameCollision(true) {
+				if dataDriven {
+					reasons = append(reasons, "C16-createkey-bare-name")
+				} else if d == nil || len(reasons) > 0 || model[2] == "outside" || model[3] == "outside" || model[2] == model[3] {
+					reasons = append(reasons, "C16-registry-bare-name")
+				}
 			}
 			report(reasons, "history:"+c.route, fmt.Sprintf("after the history the outcome is %s, without it %s", normH, norm0),
 				map[string]any{"with_history": normH, "without_history": norm0})
@@ -537,9 +554,11 @@ func checkC16(d *lib.Driver, c *c16Case) error {
 			rep.Count("history.same", 1)
 		}
 	}
-	// III. the model gives the implementation's outcome: the model of the code as it is (b), or — once
-	// the registry repair is applied to the repository — the model with the repair (-)
-	if d != nil {
+	// III. the model gives the implementation's outcome: the model of the code as it is now (-, lookup
+	// guarded by the type, /repo 6d5fecb) or — on a tree without that commit — of the code before (b)
+	if d != nil && ckMember {
+		rep.Count("model.skipped_createkey_member", 1)
+	} else if d != nil {
 		for i, got := range []string{exact0, exactH} {
 			if model[i] == "outside" || model[i+2] == "outside" {
 				rep.Count("model.outside", 1)
@@ -549,15 +568,15 @@ func checkC16(d *lib.Driver, c *c16Case) error {
 				continue
 			}
 			switch got {
-			case model[i]:
-				rep.Count("model.matches_current", 1)
 			case model[i+2]:
-				rep.Count("model.matches_repaired", 1)
+				rep.Count("model.matches_current", 1)
+			case model[i]:
+				rep.Count("model.matches_before_6d5fecb", 1)
 			default:
 				rp := c.replay()
-				rp["model"], rp["model_repaired"], rp["implementation"], rp["with_history"] = model[i], model[i+2], got, i == 1
+				rp["model_before"], rp["model"], rp["implementation"], rp["with_history"] = model[i], model[i+2], got, i == 1
 				rep.Add(lib.Finding{Kind: "disagreement", Class: "model:recompose:" + c.route, Replay: rp,
-					What: fmt.Sprintf("model %s (repaired: %s), implementation %s", model[i], model[i+2], got)})
+					What: fmt.Sprintf("model %s (before 6d5fecb: %s), implementation %s", model[i+2], model[i], got)})
 			}
 		}
 	}
